@@ -58,27 +58,30 @@ def inWindow (a : Agent) (now boots time : Nat) : Bool :=
 
 /-- one request: discover if nothing is cached, then send with the extrapolated engine time.
     `ctx` is the configured context engine id (empty = use the discovered one). -/
-def request (ctx : Bytes) (s : St) : St × List Wire :=
+def request (auth : Bool) (ctx : Bytes) (s : St) : St × List Wire :=
   let (c, pre) : Cached × List Wire := match s.disco with
     | some c => (c, [])
     | none => (⟨s.agent.engineId, s.agent.boots, s.agent.time s.now, s.now⟩, [.probe])
   let time := c.time + (s.now - c.stamp) / 10
-  ({ s with disco := some c },
-   pre ++ [.req c.engineId (if ctx == [] then c.engineId else ctx) c.boots time (inWindow s.agent s.now c.boots time)])
+  let iw := inWindow s.agent s.now c.boots time
+  -- an authenticated request outside the window is answered by a notInTimeWindow report: the call
+  -- raises and `V3MPM.decode` forgets the discovery data (the next request discovers again)
+  ({ s with disco := if auth && !iw then none else some c },
+   pre ++ [.req c.engineId (if ctx == [] then c.engineId else ctx) c.boots time iw])
 
-def step (ctx : Bytes) (s : St) : Ev → St × List Wire
-  | .request => request ctx s
+def step (auth : Bool) (ctx : Bytes) (s : St) : Ev → St × List Wire
+  | .request => request auth ctx s
   | .advance dt => ({ s with now := s.now + dt }, [])
   | .reboot => ({ s with agent := { s.agent with boots := s.agent.boots + 1, bootAt := s.now } }, [])
   | .requestBadReply => match s.disco with
     | none => (s, [.probe])
-    | some _ => request ctx s
+    | some _ => request auth ctx s
 
-def run (ctx : Bytes) : St → List Ev → St × List Wire
+def run (auth : Bool) (ctx : Bytes) : St → List Ev → St × List Wire
   | s, [] => (s, [])
   | s, e :: es =>
-    let (s', w) := step ctx s e
-    let (s'', ws) := run ctx s' es
+    let (s', w) := step auth ctx s e
+    let (s'', ws) := run auth ctx s' es
     (s'', w ++ ws)
 
 /-- a fresh client facing an agent that booted at instant 0 -/
